@@ -85,6 +85,11 @@ NOT_APPLICABLE = [
 ]
 
 
+# thorough tiers that were run end to end on the unchanged tree in the last session (exit 0 within ~35 min on 16 cores); the others keep
+# their `--tier thorough` bounds in the harness but are not registered: a registered command must be known to finish
+THOROUGH_VERIFIED: set = set()
+
+
 def main():
     checks = []
     for pid in sorted(CHECKS):
@@ -92,7 +97,7 @@ def main():
         checks.append({
             "property_id": pid,
             "quick_cmd": f"./check {pid} --tier quick",
-            "thorough_cmd": f"./check {pid} --tier thorough",
+            **({"thorough_cmd": f"./check {pid} --tier thorough"} if pid in THOROUGH_VERIFIED else {}),
             "evidence_file": f"/verif/evidence/{pid}.json",
             "replay_cmd_template": f"./check {pid} --replay {{path}}",
             "engine": {"X": "crosshair", "S": "pysymex", "X+S": "crosshair+pysymex"}[c["engine"]],
